@@ -73,4 +73,9 @@ PROPS = {
         "level_text": "Machine-checked Lean 4 theorems for EVERY seven distinct real cards, every six of them and every five of those: value7 <= value6 <= value5; value7 equals the least of its seven six-card values and value6 the least of its six five-card values.",
         "level_note": "Trusts: as C02. The implementation sweep needs no oracle (it compares the crate's own values).",
     },
+    "C04": {
+        "technique": "Lean 4 proof: each of the six differently written uniqueness tests is Nodup (unfolding / omega / sorted-scan lemma over insertion sort), corruption read off the regenerated filter graph over all 2^32 words; validated ranking from C01/C02",
+        "level_text": "Machine-checked Lean 4 theorems for EVERY list of 2..7 words below 2^32: valid iff every slot is one of the 52 card words and no two slots are equal (pairwise clauses of Two/Three/Four, the windowed contains of Five, the sort-then-scan of Six/Seven each proved equivalent to Nodup); the recogniser is the identity on exactly the 52 words for every word; validated ranking of 5, 6 or 7 arbitrary words never panics, is 0 exactly when the hand is not valid and otherwise equals unvalidated ranking, whose value is in 1..7462; the free function is the five-slot validated ranking.",
+        "level_note": "Trusts: as C01/C02; the validators are hand-modelled and compared with the crate on the near-miss alphabet with a duplicate planted at every slot pair and a bad word at every slot of every size, seeded arrangements and arbitrary words (validated ranking included, under catch_unwind).",
+    },
 }
